@@ -289,7 +289,10 @@ func ruleSlotAccounting(c *Ctx, r *R) {
 			continue
 		}
 		ny, nn := 0, 0
-		for _, e := range countExits(fn, cs.release, nil) {
+		unbindCh := bindChanParams(fn) // (s.ready.release(): the helper's channel parameter is this function's s.ready)
+		exits := countExits(fn, cs.release, nil)
+		unbindCh()
+		for _, e := range exits {
 			if cs.yields(e.Ret) {
 				ny++
 				r.ok(e.States == ss(1), cs.name+"|yield-return#"+itoa(ny), retPos(e.Ret), "a path that yields an item must return exactly one buffer slot (reachable counts: "+countDesc(e.States)+"); freeing slots at any other moment breaks the bound on items taken but not yet yielded")
@@ -328,13 +331,30 @@ func ruleSlotAccounting(c *Ctx, r *R) {
 				}
 				if sel, ok := in.(*ssa.Select); ok {
 					for _, st := range sel.States {
-						if st.Dir == types.RecvOnly && mcs.ready != nil && loadCell(st.Chan) == mcs.ready {
-							return true
+						ch := st.Chan
+						// ready.acquire(ctx): the select lives in a method of the token channel's type; its receiver is the
+						// dispatcher's channel
+						if prm, isP := ch.(*ssa.Parameter); isP {
+							if b, bound := chanParamBinding[prm]; bound {
+								ch = b
+							}
+						}
+						if st.Dir == types.RecvOnly && mcs.ready != nil {
+							if loadCell(stripChange(ch)) == mcs.ready {
+								return true
+							}
+							for _, s2 := range storesTo(mcs.ready) {
+								if stripChange(s2.Val) == stripChange(ch) {
+									return true // (the binding resolved the variable to the value it holds)
+								}
+							}
 						}
 					}
 				}
 				return false
 			}
+			unbindG := bindChanParams(g)
+			defer unbindG()
 			k := 0
 			isHandover := func(in ssa.Instruction) (bool, func(StateSet)) {
 				for _, h := range handovers {
@@ -453,15 +473,19 @@ func ruleMapOrder(c *Ctx, r *R) {
 			}
 		}
 		for _, g := range numFns {
-			instrs(g, func(b *ssa.BasicBlock, i int, in ssa.Instruction) {
+			// (the tagged value may be built by a small constructor: withIndex(item, i) - its idx parameter stands for the
+			// argument)
+			for _, dI := range deepInstrs(g, 1) {
+				in := dI.in
 				st, ok := in.(*ssa.Store)
 				if !ok {
-					return
+					continue
 				}
 				if _, f, ok := storedField(st.Addr); !ok || f != "idx" {
-					return
+					continue
 				}
-				if phi, ok := st.Val.(*ssa.Phi); ok {
+				stVal := argOf(st.Val, dI.calls)
+				if phi, ok := stVal.(*ssa.Phi); ok {
 					zero, step := false, false
 					for _, e := range phi.Edges {
 						if isConstInt(e, 0) {
@@ -477,7 +501,7 @@ func ruleMapOrder(c *Ctx, r *R) {
 				// the counter is a captured variable of a tagging function (iterator.Map(iter, func(item T) valueAndIndex[T]
 				// { tagged := …{idx: nextIdx}; nextIdx++; return tagged })): set to 0 once, outside, and incremented by one
 				// exactly once, in the block that tags, after the tag was taken
-				if ld, ok := st.Val.(*ssa.UnOp); ok && ld.Op == token.MUL {
+				if ld, ok := stVal.(*ssa.UnOp); ok && ld.Op == token.MUL {
 					if cell := cellOf(ld.X); cell != nil && isIntType(ld.Type()) {
 						zero, incs, other := 0, 0, 0
 						for _, s2 := range storesTo(cell) {
@@ -499,7 +523,7 @@ func ruleMapOrder(c *Ctx, r *R) {
 						}
 					}
 				}
-			})
+			}
 		}
 		r.ok(okNum, root+"|dispatcher-numbering", fn.Pos(), "items must be numbered 0,1,2,... in source order: idx is a counter that starts at 0 and is incremented exactly once per hand-over")
 		// workers propagate idx unchanged: every store to field idx in a worker is item.idx
@@ -515,15 +539,16 @@ func ruleMapOrder(c *Ctx, r *R) {
 			}
 		}
 		for _, g := range propFns {
-			instrs(g, func(b *ssa.BasicBlock, i int, in ssa.Instruction) {
-				if st, ok := in.(*ssa.Store); ok {
+			for _, dI := range deepInstrs(g, 1) {
+				if st, ok := dI.in.(*ssa.Store); ok {
 					if _, f, ok := storedField(st.Addr); ok && f == "idx" {
-						if strings.HasSuffix(path(st.Val), ".idx") || strings.HasSuffix(path(st.Val), "#0.idx") {
+						v := argOf(st.Val, dI.calls)
+						if strings.HasSuffix(path(v), ".idx") || strings.HasSuffix(path(v), "#0.idx") {
 							okProp = true
 						}
 					}
 				}
-			})
+			}
 		}
 		r.ok(okProp, root+"|worker-keeps-idx", fn.Pos(), "a worker must tag its result with the idx of the item it was given")
 	}
